@@ -92,6 +92,12 @@ def run(tier, rep):
                 full = name + "".join(f"_{i:02d}" for i in idx)
                 rid3, _, _ = corp.add(var, 1, keep_msg=True, lbl=False, ident=ident, profile=pn + "+flip")
                 rel.append(("FieldLocal", rid, rid3, (name, full)))
+    # payloads that look like text (all hex digits, base64 alphabet, printable): what they decode to is
+    # for the specification to say - the bytes are the payload, whatever they look like
+    from .. import stream_corpus
+
+    for pl in stream_corpus.texty_payloads(corp.bundle, rnd, 36 if quick else 300):
+        corp.add(pl, 1, lbl=False, ident="texty", profile="texty")
     if not quick:
         from .. import covfuzz
 
